@@ -432,6 +432,94 @@ pub fn spaces(tier: Tier) -> Vec<Space> {
             }
         }));
     }
+    // 6a. wide key alphabet: single set bit 2^k, all-ones-below 2^k - 1 and n - 2^k for every k (quick: every 8th k) — signing with
+    //     RFC 6979 nonces and ECDH against a fixed ordinary peer; these keys put a single carry / borrow in every limb position
+    {
+        let n = secp::n();
+        let one = BigUint::from(1u32);
+        let step = if tier.is_thorough() { 1 } else { 8 };
+        let mut wide: Vec<BigUint> = vec![];
+        for k in (1..256u32).step_by(step) {
+            for cand in [one.clone() << k, (one.clone() << k) - &one, &n - (one.clone() << k.min(255))] {
+                if cand > BigUint::from(0u32) && cand < n && !wide.contains(&cand) {
+                    wide.push(cand);
+                }
+            }
+        }
+        let wq: Vec<Point> = wide.iter().map(secp::mul_g).collect();
+        let wt = Arc::new(KeyTab { d: wide, q: wq });
+        let nw = wt.d.len() as u64;
+        let (w1, kt1) = (wt.clone(), kt.clone());
+        v.push(Space::new("wide-keys-deterministic", nw * 2 * 2 * 2, move |case, acc| {
+            let c = coords(case.idx, &[nw, 2, 2, 2]);
+            let (d, q) = (&w1.d[c[0] as usize], &w1.q[c[0] as usize]);
+            let compressed = c[1] == 0;
+            let (hash, reverse_k) = (c[2], c[3] == 1);
+            let msg = b"wide key alphabet".to_vec();
+            acc.evaluations += 1;
+            acc.transitions += 1;
+            let input = json!({"key": hx(&secp::be32(d)), "compressed": compressed, "msg": hx(&msg), "hash": hash, "reverse_k": reverse_k});
+            let digest = digest_of(hash, &msg);
+            match guard(|| ECDSA::sign_with_deterministic_k(&lib_key(d, compressed), &msg, signing_hash(hash), reverse_k)) {
+                Ok(Ok(sig)) => check_signature(acc, case, "sign_with_deterministic_k", &input, &sig, q, d, compressed, Some((&msg, hash)), &digest, reference_deterministic(d, &digest, reverse_k)),
+                Ok(Err(e)) => acc.violate("C05/sign_with_deterministic_k/kind=spurious-error", case.idx, case.json(input), e.to_string()),
+                Err(p) => acc.violate(format!("C05/sign_with_deterministic_k/kind=panic@{}", panic_site(&p)), case.idx, case.json(input), p),
+            }
+        }));
+        let w2 = wt.clone();
+        v.push(Space::new("wide-keys-ecdh", nw * 2, move |case, acc| {
+            let c = coords(case.idx, &[nw, 2]);
+            let a = &w2.d[c[0] as usize];
+            let peer = 8 % kt1.d.len();
+            let (b, bq) = (&kt1.d[peer], &kt1.q[peer]);
+            let compressed = c[1] == 0;
+            acc.evaluations += 1;
+            acc.transitions += 2;
+            acc.traces += 1;
+            acc.nontrivial_structural += 1;
+            let want = secp::ecdh_x(a, bq).to_vec();
+            let input = json!({"a": hx(&secp::be32(a)), "b": hx(&secp::be32(b)), "pub_compressed": compressed});
+            let lib = guard(|| {
+                let pa = lib_key(a, compressed);
+                let pb = lib_key(b, compressed);
+                let ab = ECDH::derive_shared_key(&pa, &pb.to_public_key()?)?;
+                let ba = ECDH::derive_shared_key(&pb, &pa.to_public_key()?)?;
+                Ok::<_, bsv::BSVErrors>((ab, ba))
+            });
+            match lib {
+                Ok(Ok((ab, ba))) => {
+                    acc.outcome(&ab[..2]);
+                    if ab != ba {
+                        acc.violate("C05/derive_shared_key/kind=not-symmetric", case.idx, case.json(input.clone()), format!("a*B={} b*A={}", hx(&ab), hx(&ba)));
+                    }
+                    if ab != want {
+                        acc.violate("C05/derive_shared_key/kind=differs-from-reference-point", case.idx, case.json(input), format!("library={} reference x(a*b*G)={}", hx(&ab), hx(&want)));
+                    }
+                }
+                Ok(Err(e)) => acc.violate("C05/derive_shared_key/kind=spurious-error", case.idx, case.json(input), e.to_string()),
+                Err(p) => acc.violate(format!("C05/derive_shared_key/kind=panic@{}", panic_site(&p)), case.idx, case.json(input), p),
+            }
+        }));
+        // every message length 0..=N under one ordinary key (interior lengths of the digest step)
+        let kt2 = kt.clone();
+        let maxlen: u64 = if tier.is_thorough() { 1100 } else { 140 };
+        v.push(Space::new("message-length-sweep", (maxlen + 1) * 2, move |case, acc| {
+            let c = coords(case.idx, &[maxlen + 1, 2]);
+            let k = 8 % kt2.d.len();
+            let (d, q) = (&kt2.d[k], &kt2.q[k]);
+            let msg = pattern(2, c[0] as usize);
+            let hash = c[1];
+            acc.evaluations += 1;
+            acc.transitions += 1;
+            let input = json!({"key": hx(&secp::be32(d)), "msg_len": msg.len(), "hash": hash});
+            let digest = digest_of(hash, &msg);
+            match guard(|| ECDSA::sign_with_deterministic_k(&lib_key(d, true), &msg, signing_hash(hash), false)) {
+                Ok(Ok(sig)) => check_signature(acc, case, "sign_with_deterministic_k", &input, &sig, q, d, true, Some((&msg, hash)), &digest, reference_deterministic(d, &digest, false)),
+                Ok(Err(e)) => acc.violate("C05/sign_with_deterministic_k/kind=spurious-error", case.idx, case.json(input), e.to_string()),
+                Err(p) => acc.violate(format!("C05/sign_with_deterministic_k/kind=panic@{}", panic_site(&p)), case.idx, case.json(input), p),
+            }
+        }));
+    }
     // 6b. key objects obtained through every constructor: private key from bytes / lower hex / upper hex / WIF (both forms),
     //     public key from the private key (two ways) / SEC1 bytes (both forms) / hex - signing equals the reference and
     //     verification succeeds whatever the route by which the key objects were made
